@@ -109,6 +109,8 @@ class FaultPlan:
 
     def record(self, spec, exc, stamp, **info):
         spec['_fired'] = 1
+        if self.world is not None and exc is not None:
+            self.world.dirty = True       # clean-so-far oracles stop here
         self.fired.append({'id': spec['id'], 'exc': exc, 'stamp': stamp,
                            'spec': spec, 'info': info})
 
